@@ -9,6 +9,7 @@ From Goag Require Import Base.Str Model.OutDir Model.GoLit Model.Router Model.Se
 (* stable names for the driver, whatever clashes extraction resolves by renaming *)
 Definition json_enc := Json.enc.
 Definition json_dec := Json.dec.
+Definition json_keep := JsonSpec.keep.
 Definition oneof_enc := OneOf.enc_oneof.
 Definition oneof_dec := OneOf.dec_oneof.
 Definition oneof_single := OneOf.single.
@@ -20,4 +21,4 @@ Extraction Language OCaml.
 Extraction "model.ml"
   OutDir.run_history OutDir.observe OutDir.spec_dir OutDir.empty_dir OutDir.write
   GoLit.encode GoLit.go_eval GoLit.embeddable
-  Serve.serve Serve.gen_accepts Params.parse_request json_enc json_dec oneof_enc oneof_dec oneof_single JsonSpec.validates Client.client_request resp_write resp_decode resp_select RespTypes.implementers Naming.public_field_name NilSafety.gen_front NilSafety.loader_inv ServeSpec.serve_spec RouterSpec.match_request Router.route_root Serve.gen_tree.
+  Serve.serve Serve.gen_accepts Params.parse_request json_enc json_dec json_keep oneof_enc oneof_dec oneof_single JsonSpec.validates Client.client_request resp_write resp_decode resp_select RespTypes.implementers Naming.public_field_name NilSafety.gen_front NilSafety.loader_inv ServeSpec.serve_spec RouterSpec.match_request Router.route_root Serve.gen_tree.
